@@ -191,34 +191,10 @@ def seeding(check: Check, repo) -> None:
     check.count("seed_facts", 4)
 
 
-def or_default(check: Check, repo) -> None:
-    types = Types(repo)
-    if not types.available:
-        check.notes.append("or-default rule skipped: mypy types unavailable")
-        return
-    for rel in repo.py_files:
-        if not rel.startswith(MATCH_FILES_PREFIX) and rel != "src/pest/parser.py":
-            continue
-        m = repo.mod(rel)
-        for n in ast.walk(m.tree):
-            if isinstance(n, ast.BoolOp) and isinstance(n.op, ast.Or) and isinstance(n.values[0], ast.Name):
-                t = types.of(rel, n.values[0])
-                if t and "builtins.int" in t and "None" in t:
-                    name = n.values[0].id
-                    q = qualname_of(m, n)
-                    fname = q.split(".")[-1]
-                    supplied = False
-                    for rel2 in repo.py_files:
-                        for c in ast.walk(repo.mod(rel2).tree):
-                            if isinstance(c, ast.Call) and isinstance(c.func, ast.Attribute) and c.func.attr == fname and any(k.arg == name for k in c.keywords):
-                                supplied = True
-                    check.count("or_default_sites")
-                    construct = f"{rel}::{q}"
-                    what = f"`{ast.unparse(n)}` treats the valid position 0 as missing, and a caller supplies {name}"
-                    check.oblige("OR-DEFAULT", construct, what if supplied else f"`{ast.unparse(n)}`: latent (no caller supplies {name})", not supplied,
-                                 finding=Finding("OR-DEFAULT", construct, what, f"{q}: {what}", {}))
-                    if not supplied:
-                        check.notes.append(f"{construct}: `{ast.unparse(n)}` would ignore an explicit 0; latent because no caller passes {name}")
+def or_default(check: Check, repo, rep) -> None:
+    from ..truthy import apply
+
+    apply(check, repo, rep, "OR-DEFAULT", lambda rel: rel.startswith(MATCH_FILES_PREFIX) or rel in ("src/pest/parser.py", "src/pest/state.py", "src/pest/stack.py", "src/pest/pairs.py"))
 
 
 def run(tier: str) -> Check:
@@ -233,7 +209,7 @@ def run(tier: str) -> Check:
     template_accesses(check, rep)
     pattern_fragments(check, repo)
     seeding(check, repo)
-    or_default(check, repo)
+    or_default(check, repo, rep)
     check.floor("input_accesses", 12)
     check.floor("template_input_lines", 10)
     check.floor("pattern_fragments", 8)
